@@ -285,11 +285,13 @@ def run_check(modname: str, tier: str, seed: int, jobs: int | None = None) -> in
     rdir = os.path.join(VERIF, "replays", prop)
     unstable = 0
     for wkey, v in list(by_witness.items())[:12]:
-        with _pool(repo, v["buf"], 1) as ex:
-            try:
-                runs = ex.submit(_wreplay, modname, v["case"]).result()
-            except Exception as e:
-                runs = [[{"witness": {"kind": "replay-died"}, "detail": {"err": repr(e)}}]] * 2
+        runs = []
+        for _ in range(2):  # two separate fresh processes: module-level state of one replay cannot leak into the other
+            with _pool(repo, v["buf"], 1) as ex:
+                try:
+                    runs += ex.submit(_wreplay, modname, v["case"], 1).result()
+                except Exception as e:
+                    runs.append([{"witness": {"kind": "replay-died"}, "detail": {"err": repr(e)}}])
         stable = len(runs) == 2 and jkey(runs[0]) == jkey(runs[1]) and len(runs[0]) > 0
         if not stable:
             unstable += 1
@@ -389,8 +391,10 @@ def replay(path: str) -> int:
     with open(path) as f:
         rec = json.load(f)
     repo = bootstrap.repo_root()
-    with _pool(repo, rec.get("buf"), 1) as ex:
-        runs = ex.submit(_wreplay, rec["module"], rec["case"]).result()
+    runs = []
+    for _ in range(2):
+        with _pool(repo, rec.get("buf"), 1) as ex:
+            runs += ex.submit(_wreplay, rec["module"], rec["case"], 1).result()
     same = jkey(runs[0]) == jkey(runs[1])
     print(json.dumps({"deterministic": same, "violations": runs[0]}, indent=1, default=str)[:6000])
     if not same:
